@@ -18,7 +18,7 @@ def setup():
     r = subprocess.run(
         [M.PY, "-c",
          "import dvc_data, dvc_objects, diskcache, sqltrie, fsspec, os;"
-         "assert os.path.realpath(dvc_data.__file__).startswith('/repo/src'), dvc_data.__file__;"
+         "assert os.path.realpath(dvc_data.__file__).startswith(os.path.realpath(os.environ.get('VERIF_REPO', '/repo') + '/src')), dvc_data.__file__;"
          "print('imports ok', dvc_data.__file__)"],
         env=M.env_for(0), capture_output=True, text=True,
     )  # fmt: skip
